@@ -17,6 +17,8 @@ use tokio::sync::oneshot;
 // address of that socket, "127.0.0.1:<source port>"; the source port of peer number K is remembered here
 thread_local! {
     static LOOPBACK: std::cell::RefCell<HashMap<usize, u16>> = std::cell::RefCell::new(HashMap::new());
+    /// peers whose loopback connection could not be set up (an environment matter): everything about them is skipped
+    static NO_SOCKET: std::cell::RefCell<std::collections::HashSet<usize>> = std::cell::RefCell::new(std::collections::HashSet::new());
 }
 fn loopback_port(k: usize) -> Option<u16> {
     LOOPBACK.with(|m| m.borrow().get(&k).copied())
@@ -204,6 +206,13 @@ async fn exec(s: &mut Session, rx: &mut HashMap<usize, Option<usize>>, pend: &mu
     }
     // a peer that came in through `accept` may have been turned away (the listener's own rules): nothing can be said by a
     // connection that does not exist
+    if op.len() > 1 {
+        if let Ok(k) = op[1].parse::<usize>() {
+            if NO_SOCKET.with(|f| f.borrow().contains(&k)) && !matches!(op[0], "setst" | "rotate" | "tresp") {
+                return "SKIP".into();
+            }
+        }
+    }
     if op[0] != "accept" && op.len() > 1 {
         if let Ok(k) = op[1].parse::<usize>() {
             if loopback_port(k).is_some() && s.verif_peer(&addr_of(k)).is_none() && !matches!(op[0], "setst" | "rotate" | "tresp") {
@@ -223,7 +232,12 @@ async fn exec(s: &mut Session, rx: &mut HashMap<usize, Option<usize>>, pend: &mu
                     }
                     "ok".into()
                 }
-                None => "SKIP".into(),
+                None => {
+                    if loopback_port(a(1)).is_none() {
+                        NO_SOCKET.with(|f| f.borrow_mut().insert(a(1)));
+                    }
+                    "SKIP".into()
+                }
             }
         }
         "add" => {
@@ -534,6 +548,7 @@ pub fn run(lines: &[String]) {
         PROGRESS.with(|p| p.borrow_mut().clear());
         HELD.with(|h| h.borrow_mut().clear());
         LOOPBACK.with(|m| m.borrow_mut().clear());
+        NO_SOCKET.with(|f| f.borrow_mut().clear());
         println!("{}", outs.join(" ; "));
     }
 }
